@@ -100,7 +100,7 @@ let event_of (s : sexp) : int * int * ev =
   | L [A "op"; off; t; r] -> (i off, i t, CbOp (opres_of r))
   | L [A "terminate"; off; t] -> (i off, i t, CbTerminate)
   | L [A "ctxbad"; _; _; why] ->
-      failwith ("context check failed inside a callback: " ^
+      failwith ("a check of the harness on the running connection failed: " ^
                 String.concat "" (List.map (fun b -> String.make 1 (Char.chr (int_of_byte b))) (b_of why)))
   | s -> failwith ("event_of: " ^ show_sexp s)
 
